@@ -55,15 +55,16 @@ theorem dedupFrom_length_le (inc cands : List T) : (dedupFrom inc cands).length 
 /-- the cache key of the request determines everything the parse depends on: the components the
     source's key leaves out are at their defaults -/
 def Keyed (cfg : Config) (r : Req) : Prop :=
-  (keyOf cfg r).core = r.core ∧ (keyOf cfg r).mode = r.mode
+  (keyOf cfg r).core = r.core ∧ (keyOf cfg r).mode = r.mode ∧ (r.cf = true → cfg.hitYieldsCf = true)
 
 instance (cfg : Config) (r : Req) : Decidable (Keyed cfg r) := by unfold Keyed; infer_instance
 
 /-- with a complete key every request is keyed -/
-theorem keyed_of_complete (cfg : Config) (h : cfg.keyComplete = true) (r : Req) : Keyed cfg r := by
+theorem keyed_of_complete (cfg : Config) (h : cfg.keyComplete = true) (hy : cfg.hitYieldsCf = true)
+    (r : Req) : Keyed cfg r := by
   simp only [Config.keyComplete, Bool.and_eq_true] at h
   obtain ⟨⟨⟨h1, h2⟩, h3⟩, h4⟩ := h
-  simp [Keyed, keyOf, Key.core, h1, h2, h3, h4]
+  simp [Keyed, keyOf, Key.core, h1, h2, h3, h4, hy]
 
 def reqOf : Gen T → Option Req
   | .unstarted r => some r
@@ -75,6 +76,9 @@ def reqOf : Gen T → Option Req
 def OpKeyed (cfg : Config) : Op → Prop
   | .start r => Keyed cfg r
   | _ => True
+
+instance (cfg : Config) (op : Op) : Decidable (OpKeyed cfg op) := by
+  cases op <;> unfold OpKeyed <;> infer_instance
 
 /-! ### the invariant -/
 
@@ -220,7 +224,7 @@ theorem inv_finishMiss (cfg : Config) (O : Oracle T) (hG : Good cfg) (s : State 
       rw [upd_same] at h
       have h := Option.some.inj h
       subst h
-      rw [hk.1, hk.2]
+      rw [hk.1, hk.2.1]
       exact ⟨hb, hout⟩
     · rw [upd_other _ _ _ _ hkk] at h
       exact hc k ids h
@@ -345,7 +349,9 @@ theorem tainted_begin (cfg : Config) (O : Oracle T) (s : State T) (g : Nat) (r :
     (begin cfg O s g r).tainted = s.tainted := by
   unfold begin
   split
-  · split <;> rfl
+  · split
+    · rfl
+    · split <;> rfl
   · rfl
 
 theorem tainted_pullStarted_mono (cfg : Config) (O : Oracle T) (s : State T) (g : Nat)
@@ -429,7 +435,7 @@ theorem gensKeyed_upd (cfg : Config) (s s' : State T) (g : Nat) (x : Gen T) (h :
 theorem gensKeyed_yieldMiss (cfg : Config) (O : Oracle T) (s : State T) (g : Nat) (r : Req)
     (ph : Phase) (rest inc : List T) (acc : List Nat) (t : T) (h : GensKeyed cfg s)
     (hk : Keyed cfg r) : GensKeyed cfg (yieldMiss cfg O s g r ph rest inc acc t).1 :=
-  gensKeyed_upd cfg s _ g _ h (by simp [yieldMiss, handOut])
+  gensKeyed_upd cfg s _ g (.miss r ph rest inc (acc ++ [s.nHeap])) h (by simp [yieldMiss, handOut])
     (by intro r' hr'; simp only [reqOf, Option.some.injEq] at hr'; subst hr'; exact hk)
 
 theorem gensKeyed_finishMiss (cfg : Config) (s : State T) (g : Nat) (r : Req) (acc : List Nat)
@@ -503,7 +509,9 @@ theorem gensKeyed_begin (cfg : Config) (O : Oracle T) (s : State T) (g : Nat) (r
   split
   · split
     · exact gensKeyed_upd cfg s _ g _ h rfl (hx _ rfl)
-    · exact gensKeyed_upd cfg s _ g _ h rfl (hx _ rfl)
+    · split
+      · exact gensKeyed_upd cfg s _ g _ h rfl (hx _ rfl)
+      · exact gensKeyed_upd cfg s _ g _ h rfl (hx _ rfl)
   · exact gensKeyed_upd cfg s _ g _ h rfl (hx _ rfl)
 
 theorem gensKeyed_step (cfg : Config) (O : Oracle T) (s : State T) (op : Op)
@@ -626,14 +634,19 @@ theorem inv_begin (cfg : Config) (O : Oracle T) (s : State T) (g : Nat) (r : Req
   unfold begin
   split
   · split
-    · refine inv_of_same cfg O s { s with gens := upd s.gens g (some (.hit r _)) } hI
+    · refine inv_of_same cfg O s { s with gens := upd s.gens g (some (.hit r [])) } hI
         rfl rfl rfl rfl rfl rfl ?_
       intro g' r' ph rest inc acc h
       exact gens_upd_notmiss s.gens g _ (by intros; simp) g' r' ph rest inc acc h
-    · refine inv_of_same cfg O s { s with gens := upd s.gens g (some (.hitLive r 0)) } hI
-        rfl rfl rfl rfl rfl rfl ?_
-      intro g' r' ph rest inc acc h
-      exact gens_upd_notmiss s.gens g _ (by intros; simp) g' r' ph rest inc acc h
+    · split
+      · refine inv_of_same cfg O s { s with gens := upd s.gens g (some (.hit r _)) } hI
+          rfl rfl rfl rfl rfl rfl ?_
+        intro g' r' ph rest inc acc h
+        exact gens_upd_notmiss s.gens g _ (by intros; simp) g' r' ph rest inc acc h
+      · refine inv_of_same cfg O s { s with gens := upd s.gens g (some (.hitLive r 0)) } hI
+          rfl rfl rfl rfl rfl rfl ?_
+        intro g' r' ph rest inc acc h
+        exact gens_upd_notmiss s.gens g _ (by intros; simp) g' r' ph rest inc acc h
   · constructor
     · intro k ids h
       exact hI.cacheOK k ids h
@@ -955,7 +968,9 @@ theorem answer_of_inv (cfg : Config) (O : Oracle T) (hG : Good cfg) (s : State T
       intro r'
       unfold begin
       split
-      · split <;> simp [upd_same]
+      · split
+        · simp [upd_same]
+        · split <;> simp [upd_same]
       · simp [upd_same]
     have : pull cfg O s1 s.nGens = pull cfg O (begin cfg O s1 s.nGens r) s.nGens := by
       rw [pull_started cfg O _ _ hb]
@@ -968,11 +983,15 @@ theorem answer_of_inv (cfg : Config) (O : Oracle T) (hG : Good cfg) (s : State T
     simp only []
     rw [hpull]
     have hco := hI.cacheOK _ ids hc
-    rw [hk.1, hk.2] at hco
+    rw [hk.1, hk.2.1] at hco
+    have hsil : (r.cf && !cfg.hitYieldsCf) = false := by
+      cases hcf : r.cf with
+      | false => rfl
+      | true => simp [hk.2.2 hcf]
     apply drain_hit cfg O r s.nGens ids _ (begin cfg O s1 s.nGens r)
-    · unfold begin; simp [hcache1, hc, hpol, upd_same]
+    · unfold begin; simp [hcache1, hc, hpol, upd_same, hsil]
     · have : (begin cfg O s1 s.nGens r).heap = s.heap := by
-        unfold begin; simp [hcache1, hc, hpol, hheap1]
+        unfold begin; simp [hcache1, hc, hpol, hheap1, hsil]
       rw [this]; exact hco.2
     · omega
   | none =>
@@ -1081,7 +1100,9 @@ theorem noAlias_begin (cfg : Config) (O : Oracle T) (s : State T) (g : Nat) (r :
   apply noAlias_of_outs s _ h
   unfold begin
   split
-  · split <;> rfl
+  · split
+    · rfl
+    · split <;> rfl
   · rfl
 
 theorem noAlias_mutate (O : Oracle T) (s : State T) (o : Nat) (k : EditKind) (fn : Nat)
@@ -1153,5 +1174,15 @@ theorem untainted_replayFrom (cfg : Config) (O : Oracle T) (hc : cfg.copies = tr
   | cons op ops ih =>
     simp only [replayFrom]
     exact ih _ (noAlias_step cfg O hc s op h) (by rw [tainted_step_eq cfg O hc hs s op h]; exact ht)
+
+theorem noAlias_replayFrom (cfg : Config) (O : Oracle T) (hc : cfg.copies = true) (ops : List Op)
+    (s : State T) (h : NoAlias s) : NoAlias (replayFrom cfg O s ops) := by
+  induction ops generalizing s with
+  | nil => exact h
+  | cons op ops ih => exact ih _ (noAlias_step cfg O hc s op h)
+
+theorem noAlias_replay (cfg : Config) (O : Oracle T) (hc : cfg.copies = true) (ops : List Op) :
+    NoAlias (replay cfg O ops) :=
+  noAlias_replayFrom cfg O hc ops State.init noAlias_init
 
 end FV.PC
